@@ -9,20 +9,24 @@ include!("uci_extracted.rs");
 // The statement `println!("bestmove {}{}{}", ..)` of the writer thread is extracted verbatim (uci_bestmove_extracted.rs) as
 // the body of `fn uci_print_bestmove(m: &Move)`.  The only substitution: inside this module `println!` is bound to a sink
 // that appends the formatted text and a newline to a fixed buffer instead of the process's stdout.
-static mut LINE: [u8; 32] = [0; 32];
+static mut LINE: [u8; 64] = [0; 64];
 static mut LINE_LEN: [usize; 4] = [0; 4];
 
 struct LineSink;
 impl std::fmt::Write for LineSink {
     fn write_str(&mut self, s: &str) -> std::fmt::Result {
-        for c in s.bytes() {
+        // index loop: for a literal the bound is a constant for the verifier
+        let b = s.as_bytes();
+        let mut i = 0;
+        while i < b.len() {
             unsafe {
-                if LINE_LEN[0] >= 32 {
+                if LINE_LEN[0] >= 64 {
                     return Err(std::fmt::Error);
                 }
-                LINE[LINE_LEN[0]] = c;
+                LINE[LINE_LEN[0]] = b[i];
                 LINE_LEN[0] += 1;
             }
+            i += 1;
         }
         Ok(())
     }
@@ -142,7 +146,7 @@ fn c12_uci_bestmove_line_contract() {
 /// arbitrary value of up to two ASCII bytes (three exhausted 12 GB in std's from_str_radix), one more arbitrary byte -- and
 /// understands `depth N` and `movetime N`.
 #[kani::proof]
-#[kani::unwind(12)]
+#[kani::unwind(40)]
 fn c14_uci_go_args_total() {
     let mut b0 = [0u8; 4];
     let mut b1 = [0u8; 4];
